@@ -23,6 +23,9 @@ UNIT = dict(
     ],
     structural=[dict(id="C13.structure.setter_%s_signals_the_change_once" % s, file=F, impl="impl Config", count_in_fn=s, pattern="self.signal_change()", expect=1,
                      why="every Config setter must give the change signal, or workers never re-read the value it stored") for s in SETTERS] + [
+        dict(id="C13.structure.setter_%s_stores_into_its_own_field" % s, file=F, impl="impl Config", count_in_fn=s, pattern="self.%s.replace(" % f, expect=1,
+             why="the setter stores the new value in the field the workers read for it") for s, f in [("pathset", "pathset"), ("file_watcher", "file_watcher"),
+             ("keyboard_events", "keyboard_events"), ("throttle", "throttle"), ("filterer", "filterer"), ("on_error", "error_handler"), ("on_action", "action_handler"), ("on_action_async", "action_handler")]] + [
         # Changeable: "clone-out reads so handlers run without holding the lock" (RwLock guards are temporaries; Drop is not modelled by Verus, so
         # these are decided on the token stream: the guard is never bound to a name, the handler is called on the clone)
         dict(id="C13.structure.changeable_get_clones_out_of_a_temporary_guard", file=CH, impl="impl<T> Changeable<T> where T: Clone + Send,", count_in_fn="get",
